@@ -1,2 +1,65 @@
+//! trie crate: insertion histories with clone / postcard round trips, full array dumps.
 use serde_json::{json, Value};
-pub fn run(_op: &str, _v: &Value) -> Value { json!({"error": "todo"}) }
+use trie::Trie;
+
+fn dump(t: &Trie) -> Value {
+    let v = serde_json::to_value(t).unwrap();
+    let nodes = &v["nodes"]["nodes"];
+    let base: Vec<i64> = nodes.as_array().unwrap().iter().map(|n| n["base"].as_i64().unwrap()).collect();
+    let check: Vec<i64> = nodes.as_array().unwrap().iter().map(|n| n["check"].as_i64().unwrap()).collect();
+    let mut empties: Vec<u64> = v["nodes"]["empties"].as_array().unwrap().iter().map(|e| e.as_u64().unwrap()).collect();
+    empties.sort();
+    json!({"base": base, "check": check, "empties": empties})
+}
+
+pub fn run(op: &str, v: &Value) -> Value {
+    match op {
+        // {"alphabet": "...", "ops": [{"ins": key} | {"clone": true} | {"serde": true}], "probes": [key..], "dump_each": bool}
+        "trie_history" => {
+            let keys: Vec<char> = v["alphabet"].as_str().unwrap().chars().collect();
+            let mut t = Trie::from_keys(&keys);
+            let labels = serde_json::to_value(&t).unwrap()["labels"]["labels"].clone();
+            let mut steps = Vec::new();
+            let dump_each = v["dump_each"].as_bool().unwrap_or(true);
+            for o in v["ops"].as_array().unwrap() {
+                if let Some(k) = o["ins"].as_str() {
+                    let r = t.insert(k);
+                    let d = dump(&t);
+                    // bases of the nodes on the key's path after the insertion (the choices xcheck made)
+                    let mut hints: Vec<i64> = Vec::new();
+                    if r.is_ok() {
+                        let base = d["base"].as_array().unwrap();
+                        let mut cur: usize = 0;
+                        let nlabels = labels.as_object().unwrap().len() as u64;
+                        let mut ls: Vec<u64> = k.chars().map(|c| labels[c.to_string()].as_u64().unwrap()).collect();
+                        ls.push(nlabels + 1);
+                        for l in ls {
+                            let b = base.get(cur).and_then(|b| b.as_i64()).unwrap_or(-1);
+                            hints.push(b);
+                            if b < 0 { break; }
+                            cur = b as usize + l as usize;
+                        }
+                    }
+                    let want_dump = dump_each || o["dump"].as_bool().unwrap_or(false);
+                    steps.push(json!({"ins": k, "ok": r.is_ok(), "hints": hints, "after": if want_dump { d } else { Value::Null }}));
+                } else if o["clone"].as_bool().unwrap_or(false) {
+                    let c = t.clone();
+                    let same = c == t;
+                    t = c;
+                    steps.push(json!({"clone": true, "same": same}));
+                } else if o["serde"].as_bool().unwrap_or(false) {
+                    let bytes = postcard::to_allocvec(&t).unwrap();
+                    let c: Trie = postcard::from_bytes(&bytes).unwrap();
+                    let same = c == t;
+                    t = c;
+                    steps.push(json!({"serde": true, "same": same, "bytes": bytes.len()}));
+                }
+            }
+            let probes: Vec<Value> = v["probes"].as_array().map(|a| a.iter().map(|k| {
+                json!(t.search(k.as_str().unwrap(), &|_, _| {}))
+            }).collect()).unwrap_or_default();
+            json!({"steps": steps, "probes": probes, "final": dump(&t), "labels": labels})
+        }
+        _ => json!({"error": "unknown trie op"}),
+    }
+}
